@@ -6,17 +6,23 @@ P("C27",
   design_ref="DESIGN.md §3 C27",
   technique="Coq proof (invariant over all tick scripts of the MMU model built on the C26 page-table model) "
             "+ exact tick-level model/impl correspondence by vm_compute; refutation witness for non-uniform tables",
-  level_text="Theorems c27_* prove, for every uniform pre-populated table (every page a frame of the MMU's page size), every "
-             "configuration and every tick script (any request stream incl. concurrent walks of one page, any back-pressure): "
-             "every answer carries the page bound to its (process, virtual page) and that binding never changes; no auto-allocated "
-             "page overlaps any other page of the table; allocation terminates. c27_mixed_sizes_refuted exhibits the confirmed "
-             "overlap with an unaligned / larger pre-inserted page (known finding). The tick-level model is compared exactly "
-             "(responses, cursor, walks in flight, final table) with the real MMU component driven through its real Top port.",
+  level_text="Theorems c27_* prove, for EVERY initial page table satisfying the boolean condition alias_okb (every frame that meets "
+             "the physical range of a pre-inserted page is the PAddr of some pre-inserted page: mixed page sizes, unaligned and "
+             "empty pages, frames shared by several processes are all allowed), every configuration and every tick script (any "
+             "interleaving of walks of any number of processes, concurrent walks of one page, any back-pressure): no auto-allocated "
+             "page overlaps any other page, overlapping pages with distinct keys are both pre-inserted, every answer carries the page "
+             "bound to its (process, virtual page) and that binding never changes, the condition is inductive, allocation "
+             "terminates (c27_no_alias_general, c27_one_mapping_general, c27_alloc_terminates; uniform tables are the special case "
+             "c27_no_overlap / c27_one_mapping). The condition is necessary one allocation at a time (c27_condition_necessary_step) "
+             "and the F-C27-1 witnesses violate exactly it (c27_mixed_sizes_refuted, c27_refuted_witness_violates_condition). "
+             "The tick-level model is compared exactly (responses, cursor, walks in flight, final table) with the real MMU "
+             "component driven through its real Top port, on uniform, conforming non-uniform and violating initial tables.",
   level_note="c27_model_agreement_implies_property transfers the one-mapping statement to the responses observed on the real MMU. "
              "Trusted: Coq kernel + vm_compute; the Go harness; the hand-written model of translationmw.go (tied exactly per tick).",
   assumptions=["the MMU stays Enabled (no control traffic) and is the only writer of the page table during the run",
                "MMU Log2PageSize = page table log2 page size < 64 (the builder panics otherwise; uint64(1)<<64 = 0 would make the allocation loop spin)",
-               "uniform table: every pre-inserted page has PageSize = 2^log2, PAddr and VAddr multiples of it",
+               "initial table: alias_okb log2 (pages) = true (c27_no_alias_general); that the allocation cursor actually reaches an unclaimed frame "
+               "is shown for the two F-C27-1 witnesses only (necessity in general is proved per allocation, not per history)",
                "port buffers are bounded FIFOs (C11); tracing calls have no effect on behaviour"],
   trusted=["modelled, not verified: mem/vm/mmu/translationmw.go (Tick, walkPageTable, finalizePageWalk, doPageWalkHit, parseFromTop, "
            "startWalking, createDefaultPage, allocatePhysicalPage); the page table is the C26 model"],
